@@ -24,6 +24,13 @@ void harness (void)
     box.x1 = BX1; box.y1 = BY1; box.x2 = BX2; box.y2 = BY2;
     /* a[0] and a[last] are guard words before/after the pixel storage */
     pixman_image_t *da = vp_img (FMT, W, H, a + 1, SW), *db = vp_img (FMT, W, H, b + 1, SW);
+    int cx1 = -1000, cy1 = -1000, cx2 = 1000, cy2 = 1000;
+#ifdef HAVE_DCLIP
+    /* destination clip (single box, may reach beyond the image) on both destinations */
+    { pixman_region32_t c; pixman_region32_init_rect (&c, CX1, CY1, CX2 - CX1, CY2 - CY1);
+      VP_ASSUME (pixman_image_set_clip_region32 (da, &c)); VP_ASSUME (pixman_image_set_clip_region32 (db, &c));
+      cx1 = CX1; cy1 = CY1; cx2 = CX2; cy2 = CY2; }
+#endif
     pixman_bool_t ok = pixman_image_fill_boxes (OP, da, &col, 1, &box);
     VP_ASSERT (ok, "fill_boxes reports success");
     pixman_image_t *solid = pixman_image_create_solid_fill (&col);
@@ -36,7 +43,7 @@ void harness (void)
     {
 	int r, bit; VP_SYM (r); VP_SYM (bit);
 	VP_ASSUME (r >= 0 && r < H && bit >= 0 && bit < SW * 32);
-	int px = bit / BPPF, inside = bit < W * BPPF && px >= box.x1 && px < box.x2 && r >= box.y1 && r < box.y2;
+	int px = bit / BPPF, inside = bit < W * BPPF && px >= box.x1 && px < box.x2 && r >= box.y1 && r < box.y2 && px >= cx1 && px < cx2 && r >= cy1 && r < cy2;
 	uint32_t nw = a[1 + r * SW + bit / 32], ow = d0[1 + r * SW + bit / 32];
 	if (!inside) VP_ASSERT ((((nw ^ ow) >> (bit % 32)) & 1) == 0, "bits outside box /\\ image bounds (neighbours, padding) are unchanged");
     }
